@@ -1,4 +1,270 @@
-import Knee.Model.ZMethod
+import Knee.Lemmas.ZMethod
+/-!
+# C10 — Z-method knee selector: validity, order, separation, termination
+
+Model: `Knee.zLoop`, `Knee.zPoints` (zmethod.getPoints), `Knee.zKnees` (zmethod.knees) in
+`Model/ZMethod.lean`.  Exact ℚ; the threshold sequence `zthr` is an oracle.  Helper lemmas
+(`removeBand_clear`, `removeBand_removes_self`, `splitGaps_gap`, `splitGaps_flatten`,
+`argminY_mem`, `tryOutliers_sep`, `zRound_sep`, `zRound_outl_from_pts`, …) and the definitions
+of the invariants `Sep` / `Clear` are in `Lemmas/ZMethod.lean`.
+-/
 namespace Knee
-theorem stub_C10 : True := trivial
+
+/-! ## 1. final sweep -/
+
+/-- the final sweep only deletes points -/
+theorem sweep_sublist (m : Rat) (l : List (Rat × Rat)) : (sweep m l).Sublist l := by
+  induction l generalizing m with
+  | nil => simp [sweep]
+  | cons p ps ih =>
+    simp only [sweep]
+    split
+    · exact (ih m).cons _
+    · exact (ih p.2).cons_cons _
+
+/-- every point kept by the sweep is not higher than the starting minimum -/
+theorem sweep_le (m : Rat) (l : List (Rat × Rat)) : ∀ p ∈ sweep m l, p.2 ≤ m := by
+  induction l generalizing m with
+  | nil => simp [sweep]
+  | cons p ps ih =>
+    simp only [sweep]
+    split
+    · exact ih m
+    · intro q hq
+      rcases List.mem_cons.1 hq with rfl | hq
+      · grind
+      · have := ih p.2 q hq; grind
+
+/-- **C10 (sweep).** After the sweep the heights are non-increasing from left to right. -/
+theorem sweep_heights (m : Rat) (l : List (Rat × Rat)) :
+    (sweep m l).Pairwise (fun a b => b.2 ≤ a.2) := by
+  induction l generalizing m with
+  | nil => simp [sweep]
+  | cons p ps ih =>
+    simp only [sweep]
+    split
+    · exact ih m
+    · exact List.pairwise_cons.2 ⟨fun q hq => sweep_le p.2 ps q hq, ih p.2⟩
+
+/-! ## 2. the x-keyed dictionary -/
+
+/-- `sortByX` returns strictly increasing x (distinct keys, ascending) -/
+theorem sortByX_sorted (l : List (Rat × Rat)) :
+    (sortByX l).Pairwise (fun a b => a.1 < b.1) :=
+  foldl_insertByX_sorted l [] List.Pairwise.nil
+
+/-- the keys of the dictionary are exactly the x values that were inserted -/
+theorem mem_sortByX_fst (l : List (Rat × Rat)) (x : Rat) :
+    x ∈ (sortByX l).map (·.1) ↔ x ∈ l.map (·.1) := by
+  simpa [sortByX] using foldl_insertByX_fst l [] x
+
+/-- every `(x, y)` entry of the dictionary is one of the inserted points -/
+theorem sortByX_subset (l : List (Rat × Rat)) : ∀ p ∈ sortByX l, p ∈ l := by
+  intro p hp
+  rcases foldl_insertByX_mem l [] p hp with h | h
+  · cases h
+  · exact h
+
+/-! ## 3. selected points are input points -/
+
+/-- **C10 (provenance).** Every outlier returned by the loop is the `(x, y)` of an input point. -/
+theorem zLoop_outl_from_pts (w h : Rat) (zthr : Nat → Rat) (minz : Rat) (fuel k : Nat)
+    (pts : List P3) (outl : List (Rat × Rat))
+    (hres : zLoop w h zthr minz fuel k pts [] = some outl) :
+    ∀ o ∈ outl, ∃ p ∈ pts, o = (p.1, p.2.1) :=
+  zLoop_outl_from_pts_aux w h zthr minz pts fuel k pts [] outl (List.Sublist.refl _)
+    (by simp) hres
+
+/-! ## 4. validity and order of the result -/
+
+/-- **C10 (order).** `getPoints` returns strictly increasing x values. -/
+theorem zPoints_sorted {xs ys zs : List Rat} {w h ymin : Rat} {zthr : Nat → Rat} {fuel : Nat}
+    {sel : List Rat} (hsel : zPoints xs ys zs w h ymin zthr fuel = some sel) :
+    sel.Pairwise (· < ·) := by
+  rcases zPoints_cases hsel with rfl | ⟨outl, -, rfl⟩
+  · exact List.Pairwise.nil
+  · rw [List.pairwise_map]
+    exact (sortByX_sorted outl).sublist (sweep_sublist 1 _)
+
+/-- **C10 (validity).** Every x returned by `getPoints` is an x of the input curve.
+(No length hypothesis is needed: `zip` truncates.) -/
+theorem zPoints_subset {xs ys zs : List Rat} {w h ymin : Rat} {zthr : Nat → Rat} {fuel : Nat}
+    {sel : List Rat} (hsel : zPoints xs ys zs w h ymin zthr fuel = some sel) :
+    ∀ x ∈ sel, x ∈ xs := by
+  rcases zPoints_cases hsel with rfl | ⟨outl, hl, rfl⟩
+  · simp
+  · intro x hx
+    obtain ⟨p, hp, rfl⟩ := List.mem_map.1 hx
+    have hp := sortByX_subset outl p ((sweep_sublist 1 _).subset hp)
+    obtain ⟨q, hq, rfl⟩ := zLoop_outl_from_pts _ _ _ _ _ _ _ _ hl p hp
+    exact (List.of_mem_zip (a := q.1) (b := q.2) hq).1
+
+/-- **C10 (validity).** Every knee index is a valid index of the curve. -/
+theorem zKnees_valid {xs ys zs : List Rat} {w h ymin : Rat} {zthr : Nat → Rat} {fuel : Nat}
+    {ks : List Nat} (hks : zKnees xs ys zs w h ymin zthr fuel = some ks) :
+    ∀ k ∈ ks, k < xs.length := by
+  simp only [zKnees, Option.map_eq_some_iff] at hks
+  obtain ⟨sel, hsel, rfl⟩ := hks
+  intro k hk
+  obtain ⟨x, hx, rfl⟩ := List.mem_map.1 hk
+  exact List.idxOf_lt_length_of_mem (zPoints_subset hsel x hx)
+
+/-- **C10 (order).** For a strictly increasing `xs` the knee indices are strictly increasing
+(in particular distinct), and `xs[k]` is the selected x. -/
+theorem zKnees_strict {xs ys zs : List Rat} {w h ymin : Rat} {zthr : Nat → Rat} {fuel : Nat}
+    {ks : List Nat} (hx : xs.Pairwise (· < ·))
+    (hks : zKnees xs ys zs w h ymin zthr fuel = some ks) : ks.Pairwise (· < ·) := by
+  simp only [zKnees, Option.map_eq_some_iff] at hks
+  obtain ⟨sel, hsel, rfl⟩ := hks
+  rw [List.pairwise_map]
+  refine (zPoints_sorted hsel).imp_of_mem ?_
+  intro a b ha hb hab
+  exact idxOf_lt_of_lt hx (zPoints_subset hsel a ha) (zPoints_subset hsel b hb) hab
+
+/-- the knee indices point at the selected x values -/
+theorem zKnees_getElem {xs ys zs : List Rat} {w h ymin : Rat} {zthr : Nat → Rat} {fuel : Nat}
+    {sel : List Rat} (hsel : zPoints xs ys zs w h ymin zthr fuel = some sel) :
+    ∀ x ∈ sel, xs[xs.idxOf x]? = some x := by
+  intro x hx
+  have hlt := List.idxOf_lt_length_of_mem (zPoints_subset hsel x hx)
+  rw [List.getElem?_eq_getElem hlt, List.getElem_idxOf hlt]
+
+/-! ## 5. separation -/
+
+/-- single-group step: trying the one candidate `b` of the working set preserves `Sep` and
+`Clear` (x-separation of `b` from the old outliers comes from `Clear`, y-separation from `yOk`) -/
+theorem tryOutliers_single_sep {w h : Rat} (b : P3) (pts : List P3) (outl : List (Rat × Rat))
+    (hsep : Sep w h outl) (hclear : Clear w h outl pts) (hb : b ∈ pts) :
+    Sep w h (tryOutliers w h [b] pts outl 0).2.1 ∧
+      Clear w h (tryOutliers w h [b] pts outl 0).2.1 (tryOutliers w h [b] pts outl 0).1 := by
+  refine tryOutliers_sep [b] pts outl 0 hsep hclear ?_ (by simp)
+  intro c hc o ho
+  simp only [List.mem_singleton] at hc
+  subst hc
+  exact le_rabs_of_clear (hclear o ho c hb).1
+
+/-- **C10 (separation invariant).** For a working set with strictly increasing x, the outliers
+returned by the loop are pairwise at least `w` apart in x and at least `h` apart in y.
+(Single- and multi-group rounds; no sign condition on `w`, `h` is needed.) -/
+theorem zLoop_sep {w h : Rat} (zthr : Nat → Rat) (minz : Rat) (fuel k : Nat) (pts : List P3)
+    (outl : List (Rat × Rat)) (hres : zLoop w h zthr minz fuel k pts [] = some outl)
+    (hpts : pts.Pairwise (fun a b => a.1 < b.1)) : Sep w h outl :=
+  zLoop_sep_aux zthr minz fuel k pts [] outl hpts List.Pairwise.nil
+    (fun _ ho => by cases ho) hres
+
+/-- **C10 (separation, final list).** In the swept, x-sorted list of selected points, from left
+to right x increases by at least `w` and the height drops by at least `h` at every step
+(hence between any two entries). -/
+theorem zLoop_final_separated {w h : Rat} (zthr : Nat → Rat) (minz : Rat) (fuel k : Nat)
+    (pts : List P3) (outl : List (Rat × Rat))
+    (hres : zLoop w h zthr minz fuel k pts [] = some outl)
+    (hpts : pts.Pairwise (fun a b => a.1 < b.1)) :
+    (sweep 1 (sortByX outl)).Pairwise (fun a b => w ≤ b.1 - a.1 ∧ h ≤ a.2 - b.2) := by
+  have hsep := zLoop_sep zthr minz fuel k pts outl hres hpts
+  have h1 : (sweep 1 (sortByX outl)).Pairwise (fun a b => a.1 < b.1) :=
+    (sortByX_sorted outl).sublist (sweep_sublist 1 _)
+  have h2 := sweep_heights 1 (sortByX outl)
+  refine (h1.and h2).imp_of_mem ?_
+  intro a b ha hb hab
+  have ha' := sortByX_subset outl a ((sweep_sublist 1 _).subset ha)
+  have hb' := sortByX_subset outl b ((sweep_sublist 1 _).subset hb)
+  have hne : a ≠ b := by rintro rfl; grind
+  have := hsep.symm_of_mem ha' hb' hne
+  unfold rabs at this
+  constructor
+  · have := this.1; split at this <;> grind
+  · have := this.2; split at this <;> grind
+
+/-- y-part on the swept pair list: any two distinct reported points differ by at least `w` in x
+and by at least `h` in height. -/
+theorem zLoop_final_separated_abs {w h : Rat} (zthr : Nat → Rat) (minz : Rat) (fuel k : Nat)
+    (pts : List P3) (outl : List (Rat × Rat))
+    (hres : zLoop w h zthr minz fuel k pts [] = some outl)
+    (hpts : pts.Pairwise (fun a b => a.1 < b.1)) :
+    ∀ p ∈ sweep 1 (sortByX outl), ∀ q ∈ sweep 1 (sortByX outl), p ≠ q →
+      w ≤ rabs (p.1 - q.1) ∧ h ≤ rabs (p.2 - q.2) := by
+  intro p hp q hq hne
+  exact (zLoop_sep zthr minz fuel k pts outl hres hpts).symm_of_mem
+    (sortByX_subset outl p ((sweep_sublist 1 _).subset hp))
+    (sortByX_subset outl q ((sweep_sublist 1 _).subset hq)) hne
+
+/-- **C10 (separation of the result).** For a strictly increasing `xs`, consecutive (hence any
+two) x values returned by `getPoints` are at least `w` apart. -/
+theorem zPoints_gap {xs ys zs : List Rat} {w h ymin : Rat} {zthr : Nat → Rat} {fuel : Nat}
+    {sel : List Rat} (hx : xs.Pairwise (· < ·))
+    (hsel : zPoints xs ys zs w h ymin zthr fuel = some sel) :
+    sel.Pairwise (fun a b => w ≤ b - a) := by
+  rcases zPoints_cases hsel with rfl | ⟨outl, hl, rfl⟩
+  · exact List.Pairwise.nil
+  · rw [List.pairwise_map]
+    exact (zLoop_final_separated zthr _ fuel 0 _ outl hl (zip_pairwise_fst xs _ hx)).imp
+      (fun h => h.1)
+
+/-- x-part in absolute-value form -/
+theorem zPoints_separated {xs ys zs : List Rat} {w h ymin : Rat} {zthr : Nat → Rat} {fuel : Nat}
+    {sel : List Rat} (hx : xs.Pairwise (· < ·))
+    (hsel : zPoints xs ys zs w h ymin zthr fuel = some sel) :
+    ∀ a ∈ sel, ∀ b ∈ sel, a ≠ b → w ≤ rabs (a - b) := by
+  rcases zPoints_cases hsel with rfl | ⟨outl, hl, rfl⟩
+  · simp
+  · intro a ha b hb hne
+    obtain ⟨p, hp, rfl⟩ := List.mem_map.1 ha
+    obtain ⟨q, hq, rfl⟩ := List.mem_map.1 hb
+    have hpq : p ≠ q := by rintro rfl; exact hne rfl
+    exact (zLoop_final_separated_abs zthr _ fuel 0 _ outl hl (zip_pairwise_fst xs _ hx)
+      p hp q hq hpq).1
+
+/-! ## 6. termination -/
+
+/-- **C10 (termination).** If the threshold sequence is at or below the minimal z from round `K`
+on and `w > 0`, the loop returns within `K + |pts| + 2` rounds: after round `K` every round
+either stops or selects an outlier and thereby removes at least that outlier's own point. -/
+theorem zLoop_total {w h : Rat} (hw : 0 < w) (zthr : Nat → Rat) (minz : Rat) (K : Nat)
+    (hK : ∀ k, K ≤ k → zthr k ≤ minz) (pts : List P3) (fuel : Nat)
+    (hfuel : K + pts.length + 2 ≤ fuel) :
+    ∃ outl, zLoop w h zthr minz fuel 0 pts [] = some outl :=
+  zLoop_total_aux hw zthr minz K hK fuel 0 pts [] (by omega)
+
+/-- `knees` returns a result for every fuel `≥ K + |xs| + 2` -/
+theorem zKnees_total {xs ys zs : List Rat} {w h ymin : Rat} (hw : 0 < w) (zthr : Nat → Rat)
+    (K : Nat) (hK : ∀ k, K ≤ k → zthr k ≤ minZ (xs.zip (ys.zip zs))) (fuel : Nat)
+    (hfuel : K + xs.length + 2 ≤ fuel) :
+    ∃ ks, zKnees xs ys zs w h ymin zthr fuel = some ks := by
+  have hlen : (xs.zip (ys.zip zs)).length ≤ xs.length := by
+    rw [List.length_zip]; omega
+  obtain ⟨outl, ho⟩ := zLoop_total (h := h) hw zthr _ K hK (xs.zip (ys.zip zs)) fuel (by omega)
+  unfold zKnees zPoints
+  split
+  · exact ⟨_, rfl⟩
+  · split
+    · exact ⟨_, rfl⟩
+    · simp only [ho]; exact ⟨_, rfl⟩
+
+/-! Non-vacuity: a concrete step curve (8 points, two z-outliers `≥ 3` at x = 2 and x = 5, which
+fall into two gap-groups in round 0, i.e. the multi-group branch) satisfies every hypothesis, and
+the model computes knees on it. -/
+private def exs : List Rat := [0, 1, 2, 3, 4, 5, 6, 7]
+private def eys : List Rat := [1, 7/8, 3/4, 1/4, 1/4, 1/8, 0, 0]
+private def ezs : List Rat := [0, 1, 7/2, 0, 1/2, 3, -1, 0]
+private def ethr (k : Nat) : Rat := 3 - (k : Rat) / 2
+
+example : zKnees exs eys ezs 1 (1/8) 0 ethr 18 = some [0, 1, 2, 4, 5, 7] := by decide +kernel
+example : zKnees exs eys ezs 2 (1/4) 0 ethr 18 = some [0, 2, 5] := by decide +kernel
+example : zKnees exs eys ezs 1 (1/8) 0 ethr 6 = none := by decide +kernel
+example : exs.Pairwise (· < ·) ∧ exs.length = eys.length ∧ eys.length = ezs.length
+    ∧ (0 : Rat) < 1 ∧ (0 : Rat) ≤ 1/8 := by decide +kernel
+/-- round 0 is a multi-group round that selects both z-outliers -/
+example : (splitGaps 1 ((exs.zip (eys.zip ezs)).filter fun p => decide (ethr 0 ≤ p.2.2))).length = 2
+    ∧ (zRound 1 (1/8) (ethr 0) (exs.zip (eys.zip ezs)) []).2 = ([(2, 3/4), (5, 1/8)], 2) := by
+  decide +kernel
+example : zLoop 2 (1/4) ethr (-1) 18 0 (exs.zip (eys.zip ezs)) []
+    = some [(2, 3/4), (5, 1/8), (0, 1)] := by decide +kernel
+/-- the termination hypothesis holds with `K = 8`, and `18 = 8 + 8 + 2` -/
+example : ∃ ks, zKnees exs eys ezs 1 (1/8) 0 ethr 18 = some ks := by
+  refine zKnees_total (by decide +kernel) ethr 8 ?_ 18 (by decide)
+  intro k hk
+  have h8 : (8 : Rat) ≤ (k : Rat) := by exact_mod_cast hk
+  have hm : minZ (exs.zip (eys.zip ezs)) = -1 := by decide +kernel
+  rw [hm]; unfold ethr; grind
+
 end Knee
